@@ -80,6 +80,8 @@ Hists(n, extra, ta) ==
 
 VARIABLES lay, cfg, ksi, ks2i, hist, stage
 vars == <<lay, cfg, ksi, ks2i, hist, stage>>
+\* variant 99 of a world: the last host is the REPLACEMENT of host 1 (same address, own host id and tokens)
+Replaced == 99
 NoCfg == [pol |-> "none", localdc |-> "", localrack |-> "", ta |-> FALSE, shuffle |-> FALSE, nonlocal |-> FALSE]
 Init == lay = <<<<>>, <<>>, <<>>>> /\ cfg = NoCfg /\ ksi = 0 /\ ks2i = 0 /\ hist = <<>> /\ stage = 0
 PickLayout == /\ stage = 0
@@ -90,14 +92,21 @@ PickLayout == /\ stage = 0
 \* policies that are not token aware do not look at the keyspace: one keyspace suffices
 PickCfg == /\ stage = 1 /\ cfg' \in PolCfgs
            /\ ksi' \in (IF cfg'.ta THEN KsIdx ELSE {CHOOSE k \in KsIdx : \A m \in KsIdx : k <= m})
-           /\ ks2i' \in (IF cfg'.ta /\ Ks2 # 0 /\ ExtraKs # {} /\ ksi' = (CHOOSE k \in ExtraKs : \A m \in ExtraKs : k <= m) THEN {0, Ks2} ELSE {0})
+           /\ ks2i' \in (IF cfg'.ta /\ Ks2 # 0 /\ ExtraKs # {} /\ ksi' = (CHOOSE k \in ExtraKs : \A m \in ExtraKs : k <= m) THEN {0, Ks2} \cup (IF Len(lay[2]) >= 2 THEN {Replaced} ELSE {}) ELSE {0})
            /\ stage' = 2 /\ UNCHANGED <<lay, hist>>
 \* with a second keyspace: the session's history, then the second keyspace becomes known (its replica map
 \* is computed on the settled ring)
 Ks2Hists(n) == {BaseHist(n, TRUE, TRUE, TRUE) \o <<Op("ks2", 0)>>, BaseHist(n, TRUE, TRUE, TRUE) \o <<Op("down", n), Op("ks2", 0)>>,
                 BaseHist(n, FALSE, FALSE, FALSE) \o <<Op("ks2", 0)>>}
+\* node replacement: the session knows hosts 1..n-1, then host n (at the address of host 1) is announced and
+\* host 1 removed (refreshRing order), or the other way round; or all hosts are simply added in turn
+ReplaceHists(n) ==
+  IF n < 2 THEN {BaseHist(n, TRUE, TRUE, TRUE)}
+  ELSE LET b1 == <<Op("setpart", 0)>> \o Adds(n - 1, TRUE) \o <<Op("ks", 0)>>
+       IN {b1 \o <<Op("add", n), Op("remove", 1)>>, b1 \o <<Op("remove", 1), Op("add", n)>>, b1 \o <<Op("add", n)>>,
+           b1 \o <<Op("add", n), Op("remove", 1), Op("setpart", 0)>>, BaseHist(n, TRUE, FALSE, TRUE)}
 PickHist == /\ stage = 2
-            /\ hist' \in (IF ks2i # 0 THEN Ks2Hists(Len(lay[2])) ELSE Hists(Len(lay[2]), ksi \in ExtraKs \/ ~cfg.ta, cfg.ta))
+            /\ hist' \in (IF ks2i = Replaced THEN ReplaceHists(Len(lay[2])) ELSE IF ks2i # 0 THEN Ks2Hists(Len(lay[2])) ELSE Hists(Len(lay[2]), ksi \in ExtraKs \/ ~cfg.ta, cfg.ta))
             /\ stage' = 3 /\ UNCHANGED <<lay, cfg, ksi, ks2i>>
 Next == PickLayout \/ PickCfg \/ PickHist
 Spec == Init /\ [][Next]_vars
@@ -110,12 +119,14 @@ World == [dc |-> [h \in 1 .. N |-> DcName(lay[2][h])], rack |-> [h \in 1 .. N |-
           pol |-> cfg.pol, ta |-> cfg.ta, shuffle |-> cfg.shuffle, nonlocal |-> cfg.nonlocal,
           localdc |-> cfg.localdc, localrack |-> cfg.localrack,
           strat |-> KsTable[ksi].strat, rfdc |-> KsTable[ksi].rfdc, rfn |-> KsTable[ksi].rfn,
-          strat2 |-> IF ks2i = 0 THEN "none" ELSE KsTable[ks2i].strat,
-          rfdc2 |-> IF ks2i = 0 THEN <<>> ELSE KsTable[ks2i].rfdc, rfn2 |-> IF ks2i = 0 THEN <<>> ELSE KsTable[ks2i].rfn]
+          addr |-> [h \in 1 .. N |-> IF ks2i = Replaced /\ h = N THEN 1 ELSE h],
+          strat2 |-> IF ks2i \in {0, Replaced} THEN "none" ELSE KsTable[ks2i].strat,
+          rfdc2 |-> IF ks2i \in {0, Replaced} THEN <<>> ELSE KsTable[ks2i].rfdc,
+          rfn2 |-> IF ks2i \in {0, Replaced} THEN <<>> ELSE KsTable[ks2i].rfn]
 
 \* query classes <<token, keyspace>>: no routing key (rotation: one more pick than there are hosts), then every
 \* lookup class - for statements on the session's keyspace and, if there is one, on the second keyspace
-Keyed == [k \in 1 .. 2 * L + 1 |-> <<5 * k, 1>>] \o (IF ks2i = 0 THEN <<>> ELSE [k \in 1 .. 2 * L + 1 |-> <<5 * k, 2>>])
+Keyed == [k \in 1 .. 2 * L + 1 |-> <<5 * k, 1>>] \o (IF ks2i \in {0, Replaced} THEN <<>> ELSE [k \in 1 .. 2 * L + 1 |-> <<5 * k, 2>>])
 Queries == <<<<NoTok, 1>>>> \o (IF cfg.ta THEN Keyed ELSE <<>>)
 NPicks(q) == IF q = NoTok THEN N + 1 ELSE 2
 RECURSIVE Before(_, _)
